@@ -195,6 +195,10 @@ def py_oracle(case, obs):
         if (st[0] or st[1]) and not acc:
             return "0,2"
     if hs == 0:
+        # a plain, complete, well-formed CONNECT must reach the handshake service of its protocol level
+        for good, lvl in ((G.connect3(), 3), (G.connect5(), 5)):
+            if first[:len(good)] == good and kind in (0, lvl) and (len(cfg) < 8 or cfg[7] == 0 or cfg[7] >= len(good)):
+                return "0,4"
         return "1"
     # 4: routing and the CONNECT seen
     fr = first_frame(allsent)
